@@ -646,6 +646,15 @@ def _workbook_readback(tier="quick", seed=0):
     cd.add_series("s", (1, 2, 3))
     cd.add_series("t", (4, 5, 6))
     cases.append(("2-level categories", XL_CHART_TYPE.BAR_CLUSTERED, cd))
+    cd = CategoryChartData()
+    for parent, mids in (("North", (("Urban", ("a", "b", "c")), ("Rural", ("d",)))), ("South", (("Urban2", ("e", "f")),)), ("East", (("Rural2", ("g",)), ("Coast", ("h", "i"))))):
+        p_ = cd.add_category(parent)
+        for mid, leaves in mids:
+            m_ = p_.add_sub_category(mid)
+            for leaf in leaves:
+                m_.add_sub_category(leaf)
+    cd.add_series("s", tuple(range(9)))
+    cases.append(("3-level ragged categories", XL_CHART_TYPE.COLUMN_CLUSTERED, cd))
     xy = XyChartData()
     for i, npts in enumerate((3, 0, 5, 1)):
         s = xy.add_series("XY%d" % i)
@@ -673,6 +682,27 @@ def _workbook_readback(tier="quick", seed=0):
                 bad = "%s: %s names %d cells, ptCount=%s" % (label, f, len(coords), ptcount[0])
                 break
             if lvls:
+                # multi-level categories: level k (0 = leaves) lives in column (depth-1-k) of the referenced block; a point's idx is
+                # the offset of its first leaf, so its label must sit in row (first row + idx) of that column
+                cols = sorted({cc for cc, rr in coords})
+                r1 = min(rr for cc, rr in coords)
+                depth = len(lvls)
+                if len(cols) != depth:
+                    bad = "%s: %s spans %d columns for %d category levels" % (label, f, len(cols), depth)
+                    break
+                for k, lvl in enumerate(lvls):
+                    col = cols[depth - 1 - k]
+                    for pt in lvl.xpath("./c:pt", namespaces=cns):
+                        idx = int(pt.get("idx"))
+                        v = pt.xpath("c:v/text()", namespaces=cns)[0]
+                        cell = cells.get((col, r1 + idx))
+                        if str(cell) != v:
+                            bad = "%s: %s level %d pt idx=%d cached %r, workbook cell %r holds %r" % (label, f, k, idx, v, (col, r1 + idx), cell)
+                            break
+                    if bad:
+                        break
+                if bad:
+                    break
                 continue
             for pt in ref.xpath(".//c:pt", namespaces=cns):
                 idx = int(pt.get("idx"))
@@ -694,8 +724,58 @@ def _workbook_readback(tier="quick", seed=0):
             obls.append({"name": nm, "base": nm, "kind": "bounded", "status": "discharged", "backend": "native", "time": 0, "path": 0})
     return {"contract": "C08.workbook_readback", "prop": "C08", "status": "ok", "obligations": obls, "paths": 0, "assumed": [], "functions": {},
             "notes": [], "solver_s": 0.0, "wall_s": _t.time() - t0,
-            "bounded": {"name": "C08.workbook_readback", "bound": "category charts with %s series (crossing Z/AA%s), 2-level categories, ragged XY and bubble data" % (nser_list, "/ZZ/AAA" if tier != "quick" else ""),
+            "bounded": {"name": "C08.workbook_readback", "bound": "category charts with %s series (crossing Z/AA%s), 2-level and ragged 3-level categories (every level against its column), ragged XY and bubble data" % (nser_list, "/ZZ/AAA" if tier != "quick" else ""),
                         "evaluations": evals, "samples": samples, "counted_as_proved": False}}
 
 
 JOBS = {"C08.workbook_readback": _workbook_readback}
+
+
+@contract("C08", "C08.chart.xlsx.CategoryWorkbookWriter._write_cat_column")
+def _write_cat_column(c):
+    """for a level with any number of (offset, label) entries: each label is written at row offset + 1 of the given column
+    with the given format -- exactly once each, nothing else is written."""
+    from pptx.chart.xlsx import CategoryWorkbookWriter
+
+    n = c.int("n_entries")
+    c.requires(n >= 0)
+    OFF = z3.Function("LEVEL_OFFSET", z3.IntSort(), z3.IntSort())
+    NAME = z3.Function("LEVEL_LABEL", z3.IntSort(), z3.IntSort())  # label identity
+    col = c.int("col")
+    fmt = SObj(None, "num_format")
+    level = SSeq(n, lambda j: (OFF(j), SObj(None, "label", label_id=NAME(j))), name="level")
+    log = {"cnt": z3.IntVal(0), "ROW": z3.Array("W_ROW0", z3.IntSort(), z3.IntSort()), "COL": z3.Array("W_COL0", z3.IntSort(), z3.IntSort()), "VAL": z3.Array("W_VAL0", z3.IntSort(), z3.IntSort())}
+    bad_fmt = []
+
+    class _L:
+        def havoc(self, tag):
+            log["cnt"] = z3.Int("W_cnt_%s" % tag)
+            for k in ("ROW", "COL", "VAL"):
+                log[k] = z3.Array("W_%s_%s" % (k, tag), z3.IntSort(), z3.IntSort())
+
+    c.path.ghost.setdefault("ghost_state", []).append(_L())
+
+    def write(it, a, k):
+        row, cc, val = a[0], a[1], a[2]
+        if len(a) < 4 or a[3] is not fmt:
+            bad_fmt.append(a)
+        p = log["cnt"]
+        from pyvc.engine import to_int
+
+        log["ROW"], log["COL"], log["VAL"] = z3.Store(log["ROW"], p, to_int(row)), z3.Store(log["COL"], p, to_int(cc)), z3.Store(log["VAL"], p, val.fields["label_id"])
+        log["cnt"] = p + 1
+
+    ws = SObj(None, "worksheet", write=GhostFn(write, "write"), set_column=GhostFn(lambda it, a, k: None, "set_column"))
+    w = SObj(CategoryWorkbookWriter, "writer")
+    j = z3.Int("wj")
+
+    def facts(k):
+        return z3.And(log["cnt"] == k, z3.ForAll([j], z3.Implies(z3.And(0 <= j, j < k), z3.And(log["ROW"][j] == OFF(j) + 1, log["COL"][j] == col, log["VAL"][j] == NAME(j)))))
+
+    c.loop_specs[("pptx.chart.xlsx:CategoryWorkbookWriter._write_cat_column", 0)] = invariant_loop("C08.chart.xlsx.CategoryWorkbookWriter._write_cat_column.loop0", [], lambda env, k: facts(k))
+    out = c.run(CategoryWorkbookWriter._write_cat_column, w, ws, col, level, fmt)
+    if out.raised:
+        c.fails("never_raises", "raised %s" % out.exc)
+        return
+    c.ensures("post.each_label_at_row_offset_plus_one", facts(n))
+    c.ensures("post.written_with_the_given_format", not bad_fmt)
